@@ -230,7 +230,7 @@ func nameFromText(s string) string {
 
 // Converts a name to newick format.
 func nameToText(s string) string {
-	if strings.ContainsAny(s, "(),:;'_\t") {
+	if strings.ContainsAny(s, "(),:;'_\t\n\r") {
 		return "'" + strings.ReplaceAll(s, "'", "''") + "'"
 	}
 	return strings.ReplaceAll(s, " ", "_")
